@@ -534,6 +534,9 @@ pub struct WorldCfg {
     pub onchain: bool,
     /// run over the transactional CloudKVVStore<MemoryKVVStore>
     pub cloud: bool,
+    /// setup_channel gives every channel a permanent id that differs from its original id (the
+    /// LDK flow); the channel is then in the channel map under both ids
+    pub permanent_ids: bool,
 }
 
 impl Default for WorldCfg {
@@ -548,6 +551,7 @@ impl Default for WorldCfg {
             allowlist: vec![],
             onchain: false,
             cloud: false,
+            permanent_ids: false,
         }
     }
 }
@@ -818,8 +822,9 @@ impl World {
         let id = self.channel_id(dbid);
         let node = self.node.clone();
         let setup = setup.clone();
+        let perm = if self.cfg.permanent_ids { Some(ChannelId::new(&[0xc0u8.wrapping_add(dbid as u8); 32])) } else { None };
         call(move || {
-            node.setup_channel(id, None, setup, &DerivationPath::master())
+            node.setup_channel(id, perm, setup, &DerivationPath::master())
                 .map(|_| ())
                 .map_err(|e| status_kind(&e))
         })
